@@ -19,6 +19,12 @@ def tok_kind(t):
     """kind name of a canonical token"""
     if isinstance(t, str):
         return t
+    if t is None:
+        return "None"       # Tok::None (the keyword) prints like Option::None
+    if t is True:
+        return "True"
+    if t is False:
+        return "False"
     return t.get("_t") or t.get("_k")
 
 
